@@ -94,6 +94,8 @@ def battery(rng=None, size=None):
                ["C", "D"], ["F"], []):
         q("chords", "determine", ch), q("chords", "determine", ch, True)
     q("chords", "from_shorthand", ["C", "Am", "NC"])
+    # the second parameter ("only used for a recursive call") is still a list handed to a library call
+    q("chords", "from_shorthand", "Am", ["C", "E"]), q("chords", "from_shorthand", "Am/G", ["C", "E"]), q("chords", "from_shorthand", "Dm7", "F")
     for p in (["I", "IV", "V", "I"], ["IIm7", "V7", "I"], ["VIIdim7"], ["bVIm"]):
         for i in range(len(p)):
             q("progressions", "substitute", p, i), q("progressions", "substitute", p, i, 1)
@@ -379,7 +381,7 @@ def run(shard, ctx):
             # keep one trial per function first, then fill up
             seen, first, restl = set(), [], []
             for i in order:
-                key = (Q[i]["m"], Q[i]["f"], Q[i].get("then"))
+                key = (Q[i]["m"], Q[i]["f"], Q[i].get("then"), tuple(type(a).__name__ for a in Q[i]["a"]))
                 (restl if key in seen else first).append(i)
                 seen.add(key)
             order = (first + restl)[:shard["limit"]]
